@@ -109,6 +109,16 @@ def main():
                     cb.append("%s quick: %s" % (prop, ("caught by oracle(s) " + ", ".join(oracles)) if caught else "MISSED"))
                     meta["caught_by"] = cb
                     json.dump(meta, open(mp, "w"), indent=1)
+    if record and "--merge" in sys.argv:
+        # keep the rows of changes that were not run again (and still exist), replace those that were
+        rerun = set(name for name, _p, _c, _o in table)
+        try:
+            for line in open(os.path.join(VERIF, "SELFTEST.md")):
+                m = re.match(r"\| (\S+) \| (\S+) \| (caught|MISSED) \| (.*) \|$", line.rstrip("\n"))
+                if m and m.group(1) not in rerun and os.path.exists(os.path.join(VERIF, m.group(1))):
+                    table.append((m.group(1), m.group(2), m.group(3) == "caught", [o for o in m.group(4).split(", ") if o]))
+        except IOError:
+            pass
     if record:
         with open(os.path.join(VERIF, "SELFTEST.md"), "w") as f:
             f.write("# Self-test: which check catches which deliberate change\n\n")
